@@ -13,7 +13,8 @@ RULE = ('(a) ALL token strings up to length n over a 28-token alphabet, alone an
         'covers every production: every single-token deletion, insertion and substitution from the alphabet at every position; (c) every insertion of a '
         'character that belongs to no token at every position of the corpus texts, plus the empty and blank texts; (d) all interval bound pairs from '
         '{0,1,2,3}^2 with and without units, bound constants declared/undeclared, identifiers declared/undeclared/dotted; every token string is presented '
-        'twice, with single blanks and with no white space around brackets, commas, colons and semicolons. Oracle (one-directional): '
+        'twice, with single blanks and with no white space around brackets, commas, colons and semicolons; (e) all sequences of up to 5 (thorough: 6) operations on ONE '
+        'specification object over {4 spec texts, 5 add_sub_spec texts (valid and invalid), parse()}: every parse() is judged against the text in force. Oracle (one-directional): '
         'parse() returns => the token string is derivable from the grammar (Earley recogniser over the productions of the .g4 files), no character was '
         'skipped, 0 <= begin <= end, bound constants declared, and a first evaluation with data for every identifier returns or raises RTAMTException; '
         'in every other case the only admissible outcome is RTAMTException; every call runs under a wall-clock limit. non-trivial = accepted string, or '
@@ -170,6 +171,8 @@ def shards(tier):
     out.append({'mode': 'bounds'})
     out.append({'mode': 'literals'})
     out.append({'mode': 'nesting'})
+    for o in SEQ_OPS:
+        out.append({'mode': 'sequences', 'first': o[0], 'n': 5 if tier == 'quick' else 6})
     return out
 
 
@@ -207,8 +210,81 @@ def nesting_verdict(construct, depth):
     return None, ('accepted' if k == 'ok' else 'rejected')
 
 
+# operations on ONE specification object: the text reaches parse() through spec.spec and through add_sub_spec(), and parse() may be called
+# any number of times.  (name, kind, text, text is outside the language or violates a side condition)
+SEQ_OPS = [
+    ('T1', 'spec', 'out = always [ 0 , 1 ] ( x >= 1 )', False),
+    ('T2', 'spec', 'out = p and prev p', False),
+    ('T3', 'spec', 'out = once [ 3 , 1 ] x', True),
+    ('T4', 'spec', 'out = x # >= 1', True),
+    ('S1', 'sub', 'p = once [ 0 , 1 ] x ;', False),
+    ('S2', 'sub', 'q = once [ 2 , 1 ] y ;', True),
+    ('S3', 'sub', 'q = ( x >= 1 ;', True),
+    ('S4', 'sub', 'q = x ? 1 ;', True),
+    ('S5', 'sub', 'q = always [ 0 , k ] x ;', True),
+    ('P', 'parse', None, None),
+]
+
+
+def run_sequence(names):
+    """message | None, number of parse() calls judged.  One-directional oracle as everywhere in C14: a parse() that returns normally while the
+    text in force (all sub-specifications added so far + the current spec text) is outside the language is a violation; so is any exception
+    other than RTAMTException"""
+    ops = {o[0]: o for o in SEQ_OPS}
+    s = impl.rtamt.StlDiscreteTimeOfflineSpecification()
+    declare(s)
+    cur_bad = None       # None: no text yet
+    sub_bad = False
+    judged = 0
+    for i, nme in enumerate(names):
+        _, kind, text, bad = ops[nme]
+        if kind == 'spec':
+            s.spec = text
+            cur_bad = bad
+        elif kind == 'sub':
+            k, v = impl.outcome(s.add_sub_spec, text)
+            if k == 'exc':
+                return 'add_sub_spec(%r) raised %s' % (text, v), judged
+            sub_bad = sub_bad or bad
+        else:
+            try:
+                with time_limit(5):
+                    k, v = impl.outcome(s.parse)
+            except TimeoutError:
+                return 'parse() number %d did not terminate within 5 s' % (i + 1), judged
+            judged += 1
+            if k == 'exc':
+                return 'step %d: parse() raised %s instead of RTAMTException' % (i + 1, v), judged
+            if k == 'ok' and (cur_bad is None or cur_bad or sub_bad):
+                return ('step %d: parse() succeeded although the text in force is not a specification (%s)'
+                        % (i + 1, 'no text' if cur_bad is None else ('the spec text' if cur_bad else 'a sub-specification added with add_sub_spec()'))), judged
+    return None, judged
+
+
 def run_shard(shard, tier, res):
     mod = sys.modules[__name__]
+
+    if shard['mode'] == 'sequences':
+        names = [o[0] for o in SEQ_OPS]
+        for L in range(0, shard['n']):
+            for rest in itertools.product(names, repeat=L):
+                seq = [shard['first']] + list(rest)
+                if 'P' not in seq:
+                    continue
+                res.evaluations += 1
+                msg, judged = run_sequence(seq)
+                if msg:
+                    res.violation(mod, {'mode': 'sequences', 'ops': seq, 'words': [], 'text': None}, 'operations %s: %s' % (' '.join(seq), msg))
+                    res.outcomes['sequence: violation'] += 1
+                else:
+                    res.outcomes['sequence: ok'] += 1
+                    res.flags['sequence_parse_calls'] += judged
+                    if seq.count('P') > 1:
+                        res.nontrivial += 1
+                res.digest(seq, msg)
+        res.sample({'operations': ['T1', 'P', 'S2', 'P'], 'meaning': [o[2] for o in SEQ_OPS if o[0] in ('T1', 'S2')],
+                    'verdict': 'the second parse() must raise RTAMTException'}, 1)
+        return
 
     def one(words, text=None, skipped=False, tag='strings'):
         if text is None and tag != 'glued':
@@ -304,6 +380,9 @@ def run_shard(shard, tier, res):
 
 
 def replay(case):
+    if case.get('mode') == 'sequences':
+        m, _ = run_sequence(case['ops'])
+        return [m] if m else []
     if case.get('mode') == 'nesting':
         m, _ = nesting_verdict(case['construct'], case['depth'])
         return [m] if m else []
